@@ -612,6 +612,9 @@ pub fn run(tier: &str) -> i32 {
     ev.set("kill_points_judged", json!(judged));
     ev.set("child_with_a_log_that_rotates_after_two_records", json!({"histories": small.0, "restarts_checked": small.1, "records_decoded_after_restart": small.2}));
     ev.set("known_findings_seen", json!(v.known_seen()));
+    // Engine R: the start-up sequence of src/bin/main.rs itself, across two restarts of a real process
+    let real = crate::realparts::c16_real(&v, if thorough { 64 } else { 8 }, seed());
+    ev.set("real_processes", real.to_json());
     ev.violations = v.violation_count();
     ev.assumptions = vec![
         "restart mirrors src/bin/main.rs (load key map, read flag, clean metadata if invalid, create dbs, load all dbs)".into(),
